@@ -6,6 +6,7 @@ apply width pairing. Exact width accounting over all histories is not decided.""
 from dqsa import trans, paths
 from .common import *
 from .sync_common import entry_point
+from .C03 import root_ptr
 
 UNITS = ["queue", "apply", "source", "init"]
 
@@ -215,6 +216,49 @@ def rule_MP6(rep, prog, q):
     rep.require(rid, ok, fn.file, fn.name, "apply-width-not-relinquished",
                 "_dispatch_apply_redirect can return after _dispatch_apply_f without _dispatch_queue_relinquish_width: the reserved width is never "
                 "returned and later barriers on the queue wait forever (or start early after an underflow)", sample={"reserve": len(res_), "relinquish": len(rel)})
+    # the surplus handed back when a level grants less than asked for is taken from the levels ABOVE that level only: the walk stops AT the level
+    # whose reservation just came back short (that level reserved only what it granted)
+    for r in res_:
+        lvl = root_ptr(fn, r.ops[0])
+        early = [c for c in rel if fn.dominates(r, c) and not any(fn.inst_reaches(a, c) for a in calls_named(fn, "_dispatch_apply_f"))]
+        for c in early:
+            rep.require(rid, root_ptr(fn, c.ops[1]) == lvl, c.loc, fn.name, "apply-excess-relinquished-past-level",
+                        "_dispatch_apply_redirect gives the surplus width back down to a queue other than the level that granted less (stop queue %s, level %s): "
+                        "that level's in-use width is decremented by width it never reserved, so a barrier submitted during the apply starts while iterations "
+                        "are still running" % (root_ptr(fn, c.ops[1]), lvl), sample={"relinquish": c.loc})
+
+
+def rule_OD10(rep, prog, q):
+    rid = rep.rule("C04-OD10", "the drainer converts barrier ownership into 'the whole width' with the width the queue has NOW: every dq_width value that feeds "
+                   "`owned` in _dispatch_lane_drain is loaded after the last item it ran (a barrier item may have changed the width)", floor=2)
+    fn = prog.fn("_dispatch_lane_drain")
+    rep.saw(fn)
+    callouts = calls_named(fn, ("_dispatch_continuation_pop_inline",))
+    n = 0
+    for m in fn.all_insts():
+        if m.op != "mul" or not (m.ops[1][0] == "c" and m.ops[1][1] == q.WIDTH_INTERVAL):
+            continue
+        l = fn.inst(m.ops[0])
+        while l is not None and l.op in ("zext", "trunc", "and", "lshr"):
+            l = fn.inst(l.ops[0])
+        if l is None or l.op != "load" or "dq_width" not in prog.fields(l):
+            continue
+        uses = []
+        for u in fn.users(m):
+            if u.op == "phi":
+                # a phi uses the value on the edge it arrives by: the use point is the end of that predecessor block
+                uses += [fn.blocks[frm].term for v, frm in u.ops if tuple(v[:2]) == ("i", m.id)]
+            else:
+                uses.append(u)
+        uses = uses or [m]
+        n += len(uses)
+        stale = any(fn.inst_reaches(l, c) and fn.inst_reaches(c, u, avoid_insts=[l]) for c in callouts for u in uses)
+        rep.require(rid, not stale, m.loc, fn.name, "owned-width-from-stale-dq_width",
+                    "_dispatch_lane_drain computes the width it owns from a dq_width loaded BEFORE an item ran (load at %s): after a barrier item that changed the "
+                    "width (dispatch_queue_set_width) the drainer gives back the old width and the queue's in-use count is permanently wrong - barriers start over "
+                    "running items" % l.loc, sample={"load": l.loc, "use": m.loc})
+    if n < 2:
+        rep.unknown(rid, "fewer than 2 width-to-owned conversions found in _dispatch_lane_drain (%d)" % n)
 
 
 # sites that take the barrier (full width + IN_BARRIER) lock without the generic "no width in use" guard, one reason each
@@ -404,6 +448,12 @@ def run(rep, tier="quick", srcdir=None, only=None):
         rule_MP8(rep, prog, q)
     if want("C04-SB9"):
         rule_SB9(rep, prog, q)
+    if want("C04-OD10"):
+        rule_OD10(rep, prog, q)
+    if want("C05-WR3"):
+        # a dispatch_barrier_sync waiter that is handed the barrier lock blocks on the thread event: it must not return before the hand-off (shared with C05)
+        from . import C05
+        C05.rule_WR3(rep, ir.Program(build.facts_for(["shims/lock"], srcdir=srcdir)))
 
 
 def run_thorough(rep, srcdir=None, only=None):
